@@ -1554,6 +1554,63 @@ impl TypeChecker {
 //@   endghost
 //@ end
 
+//@ fn sylt-compiler/src/typechecker.rs outer_statement
+//@   in TypeChecker
+//@   mode assumed
+//@   ret r
+//@   spec
+        requires old(self).inv2(),
+        ensures final(self).inv2(), final(self).grows(old(self)),
+//@   endspec
+//@ end
+
+//@ fn sylt-compiler/src/typechecker.rs solve
+//@   in TypeChecker
+//@   props C05 C07
+//@   ret r
+//@   rewrite equivalent
+//@- self.unify(var.definition, ctx, ty, start)
+//@-     .map(|_| ())
+//@-     .or_else(|_| {
+//@-         err_type_error!(
+//@-             self,
+//@-             var.definition,
+//@-             TypeError::Mismatch {
+//@-                 got: self.bake_type(ty),
+//@-                 expected: self.bake_type(start),
+//@-             },
+//@-             "The start function has the wrong type"
+//@-         )
+//@-     })
+//@+ match self.unify(var.definition, ctx, ty, start) {
+//@+     Ok(_) => Ok(()),
+//@+     Err(_) => err_type_error!(
+//@+         self,
+//@+         var.definition,
+//@+         TypeError::Mismatch {
+//@+             got: self.bake_type(ty),
+//@+             expected: self.bake_type(start),
+//@+         },
+//@+         "The start function has the wrong type"
+//@+     ),
+//@+ }
+//@   why closure capturing &mut self; Result::map + or_else is this match
+//@   endrewrite
+//@   spec
+        requires old(self).inv2(),
+            start_var is Some ==> (start_var->Some_0.id as int) < old(self).variables@.len(), //# C07 solve.pre.start_id_in_range
+        ensures
+            start_var is None ==> r is Err, //# C05,C07 solve.program_without_start_is_rejected
+//@   endspec
+//@   loop 1
+            invariant self.inv2(), self.grows(old(self)),
+//@   endloop
+//@   ghost before
+//@| let ty = self.variables[var.id].ty;
+                proof { lemma_var_valid(self, var.id as int); }
+//@   endghost
+//@ end
+
 //@ fn sylt-compiler/src/typechecker.rs resolve_type
 //@   in TypeChecker
 //@   mode assumed
